@@ -160,7 +160,14 @@ class FastaIndex:
         if self.assembly:
             msg = "Assembly AGP already loaded"
             raise IndexUsageError(msg)
-        self.assembly = parse_agp(self.agp_file.open(), self.fasta_file.name)
+        asm = parse_agp(self.agp_file.open(), self.fasta_file.name)
+        if self.index:
+            # A sequence without residues has no line in an AGP file
+            in_agp = {scffld.name for scffld in asm.scaffolds}
+            for i, (name, info) in enumerate(self.index.items()):
+                if info.length == 0 and name not in in_agp:
+                    asm.scaffolds.insert(i, Scaffold(name))
+        self.assembly = asm
 
     def write_assembly(self):
         asm = self.assembly
@@ -243,6 +250,9 @@ class FastaIndex:
 
     def get_fasta_seq(self, name) -> FastaSeq:
         info = self.get_info(name)
+        if info.length == 0:
+            # No residues, and no line length to locate them with
+            return FastaSeq(name, b"")
         seq_bytes = self.sequence_bytes(info, 1, info.length).getvalue()
         return FastaSeq(name, seq_bytes)
 
